@@ -45,7 +45,8 @@ const sweepAll = 8
 var checker = &vk.Checker[Case]{
 	ID: "C10",
 	Rule: "(height h<=32, length l<=h, l-bit prefix) with lengths 0,1,h-1,h and prefixes all-0/all-1/alternating/single-bit/all-but-one-bit boosted beside random, sparse and dense ones, heights above the grid favoured, and pairs of equal height (descendant, diverging after a common prefix, independent, pre-order successor, sibling); " +
-		"NewPath vs a constructive encoding, PathLen/PathHeight/PathBits/PathMask/PathStr vs their definitions, numeric order of the words NewPath returned vs a pre-order comparator. Grid: every (h<=16,l,prefix) (h<=21 in the thorough tier), the pre-order walk of every such full tree must be strictly increasing in the library's words, all pairs for h<=6; " +
+		"NewPath vs a constructive encoding, PathLen/PathHeight/PathBits/PathMask/PathStr vs their definitions, numeric order of the words NewPath returned vs a pre-order comparator. " +
+		"The accessors are asked about a word not only right after NewPath built it: a case asks them about word 1 before its first NewPath call, after NewPath + accessors of word 2, after both words were built again back to back, and after NewPath calls for decoys (parent, children, sibling, same prefix one height up/down; all of them for h<=8, one or two chosen by the case above), in ten different accessor orders; the grid walk asks them about the previous node's word after each NewPath. Grid: every (h<=16,l,prefix) (h<=21 in the thorough tier), the pre-order walk of every such full tree must be strictly increasing in the library's words, all pairs for h<=6; " +
 		"sweep of EVERY (h above the grid .. 32, l): all prefixes for l<=8, else all-0/all-1/both alternating/every single bit/every all-but-one bit, every value of every window of 5 (thorough 6) adjacent prefix bits with the other bits random, and 512 (thorough 2048) random prefixes, each paired with its pre-order successor or its sibling. " +
 		"Non-trivial: l>=1 and prefix != 0 (upper half non-zero). Grid and sweep cases are distinct by construction (a prefix occurs once per (h,l)); rapid cases are hashed only when h is above the grid and the case is not one of the sweep's.",
 	Check:    check,
@@ -89,39 +90,82 @@ func bitsText(prefix uint64, l int) string {
 	return string(b)
 }
 
-// checkWord returns the word the LIBRARY built for the node (equal to the constructive encoding when no
-// failure is returned), so that the order checks judge library output.
-func checkWord(h, l int, prefix uint64) (uint64, *vk.Failure) {
+// buildWord calls NewPath for the node and compares the result with the constructive encoding; it returns the
+// word the LIBRARY built (equal to the encoding when no failure is returned), so that the order checks judge
+// library output.
+func buildWord(h, l int, prefix uint64) (uint64, *vk.Failure) {
 	want := model.PathWord(prefix, l, h)
 	var got uint64
-	var pl, ph int32
-	var pb, pm uint64
-	var ps string
-	if f := vk.TryF(func() string { return fmt.Sprintf("path functions (h=%d l=%d prefix=%b)", h, l, prefix) }, func() {
+	if f := vk.TryF(func() string { return fmt.Sprintf("NewPath (h=%d l=%d prefix=%b)", h, l, prefix) }, func() {
 		got = bmtree.NewPath(prefix<<uint(h-l), int32(l), int32(h))
-		pl, ph = bmtree.PathLen(want), bmtree.PathHeight(want)
-		pb, pm = bmtree.PathBits(want), bmtree.PathMask(want)
-		ps = bmtree.PathStr(want)
 	}); f != nil {
 		return want, f
 	}
 	if got != want {
 		return want, vk.Failf("newpath", "NewPath(%#x, %d, %d) = %#x, want %#x", prefix<<uint(h-l), l, h, got, want)
 	}
+	return got, nil
+}
+
+// accessorOrders: the orders in which checkAccessors calls PathLen (0), PathHeight (1), PathBits (2), PathMask (3)
+// and PathStr (4): every rotation of the forward and of the reverse order, so that every accessor is called
+// first, last and right after every other one.
+var accessorOrders = func() [][5]int {
+	var out [][5]int
+	for r := 0; r < 5; r++ {
+		var f, b [5]int
+		for i := 0; i < 5; i++ {
+			f[i], b[i] = (r+i)%5, (r+5-i)%5
+		}
+		out = append(out, f)
+		out = append(out, b)
+	}
+	return out
+}()
+
+// checkAccessors calls the five accessors on the word of the node (h, l, prefix) in the order
+// accessorOrders[order mod 10] and holds each result against its definition. NO NewPath call is made here: the
+// caller decides what was built before (this node, another node, nothing), `when` says it in the message
+// (rendered only when a message is needed).
+func checkAccessors(h, l int, prefix uint64, order int, when context) *vk.Failure {
+	want := model.PathWord(prefix, l, h)
+	var pl, ph int32
+	var pb, pm uint64
+	var ps string
+	seq := accessorOrders[order%len(accessorOrders)]
+	if f := vk.TryF(func() string { return fmt.Sprintf("path accessors (h=%d l=%d prefix=%b; %s)", h, l, prefix, when) }, func() {
+		for _, a := range seq {
+			switch a {
+			case 0:
+				pl = bmtree.PathLen(want)
+			case 1:
+				ph = bmtree.PathHeight(want)
+			case 2:
+				pb = bmtree.PathBits(want)
+			case 3:
+				pm = bmtree.PathMask(want)
+			default:
+				ps = bmtree.PathStr(want)
+			}
+		}
+	}); f != nil {
+		return f
+	}
 	if int(pl) != l {
-		return want, vk.Failf("pathlen", "PathLen(%#x) = %d, want %d", want, pl, l)
+		return vk.Failf("pathlen", "PathLen(%#x) = %d, want %d (%s)", want, pl, l, when)
 	}
 	if l >= 1 && int(ph) != h {
-		return want, vk.Failf("pathheight", "PathHeight(%#x) = %d, want %d", want, ph, h)
+		return vk.Failf("pathheight", "PathHeight(%#x) = %d, want %d (%s)", want, ph, h, when)
 	}
 	if pb != want>>32 || pm != want&0xffffffff {
-		return want, vk.Failf("pathbits-mask", "PathBits/PathMask(%#x) = %#x/%#x", want, pb, pm)
+		return vk.Failf("pathbits-mask", "PathBits/PathMask(%#x) = %#x/%#x (%s)", want, pb, pm, when)
 	}
-	if ps != bitsText(prefix, l) {
-		return want, vk.Failf("pathstr", "PathStr(%#x) = %q, want %q", want, ps, bitsText(prefix, l))
+	expect := bitsText(prefix, l)
+	if ps != expect {
+		return vk.Failf("pathstr", "PathStr(%#x) = %q, want %q (%s)", want, ps, expect, when)
 	}
-	if l > 0 { // the returned string stays under watch while later calls produce more output
-		kept, expect := ps, bitsText(prefix, l)
+	if l > 0 && when.watch { // the returned string stays under watch while later calls produce more output
+		kept := ps
 		keep(func() string {
 			if kept != expect {
 				return fmt.Sprintf("PathStr(%#x) returned %q, which now reads %q", want, expect, kept)
@@ -129,7 +173,63 @@ func checkWord(h, l int, prefix uint64) (uint64, *vk.Failure) {
 			return ""
 		})
 	}
-	return got, nil
+	return nil
+}
+
+// context of an accessor round: what the last NewPath call before it was.
+type context struct {
+	what  string
+	last  *node // the node NewPath was last called for, when it is not the node asked about
+	watch bool  // keep the returned string under watch (the in-step rounds: one watched result per word)
+}
+
+func (c context) String() string {
+	if c.last == nil {
+		return c.what
+	}
+	return fmt.Sprintf("%s: NewPath(h=%d l=%d prefix=%b) was called after it", c.what, c.last.h, c.last.l, c.last.p)
+}
+
+var (
+	inStep    = context{what: "right after NewPath built this word; order PathLen, PathHeight, PathBits, PathMask, PathStr", watch: true}
+	noBuild   = context{what: "before any NewPath call of this case"}
+	lastOfTwo = context{what: "both words of the pair built first, this one last"}
+)
+
+func earlier(n *node) context { return context{what: "a word built earlier", last: n} }
+
+// checkWord: NewPath for the node, then the accessors on that word in their fixed order.
+func checkWord(h, l int, prefix uint64) (uint64, *vk.Failure) {
+	w, f := buildWord(h, l, prefix)
+	if f != nil {
+		return w, f
+	}
+	return w, checkAccessors(h, l, prefix, 0, inStep)
+}
+
+type node struct {
+	h, l int
+	p    uint64
+}
+
+// decoys: nodes whose words share searching bits, mask or both with the node's (parent, both children, sibling,
+// the same prefix one height up / down, the same searching bits with another length); NewPath is called for one of
+// them between building a word and asking the accessors about it.
+func decoys(h, l int, prefix uint64) []node {
+	var out []node
+	if l > 0 {
+		out = append(out, node{h, l - 1, prefix >> 1}, node{h, l, prefix ^ 1})
+	}
+	if l < h {
+		out = append(out, node{h, l + 1, prefix << 1}, node{h, l + 1, prefix<<1 | 1})
+	}
+	if h < 32 {
+		out = append(out, node{h + 1, l, prefix})
+	}
+	if l <= h-1 {
+		out = append(out, node{h - 1, l, prefix})
+	}
+	return out
 }
 
 func checkOrder(h int, w1 uint64, p1 uint64, l1 int, w2 uint64, p2 uint64, l2 int) *vk.Failure {
@@ -141,17 +241,91 @@ func checkOrder(h int, w1 uint64, p1 uint64, l1 int, w2 uint64, p2 uint64, l2 in
 	return nil
 }
 
+// caseOrder: where in accessorOrders a case starts (a pure function of the case).
+func caseOrder(c Case) int {
+	return int(vk.Mix(uint64(c.H)<<16^uint64(c.L)<<8^uint64(c.L2)^uint64(c.Prefix)*0x9e3779b97f4a7c15^uint64(c.Prefix2)*0xd1342543de82ef95) % 10)
+}
+
+// check runs one case as a fixed sequence of calls (a pure function of the case):
+//
+//	accessors(word 1)                          - no NewPath call of this case precedes them
+//	NewPath(node 1) ; accessors(word 1)        - in step, fixed order
+//	[pair] NewPath(node 2) ; accessors(word 2) ; accessors(word 1) - the EARLIER word after another NewPath
+//	then, for h <= 8 all of (a) (b), for taller trees one of (a) (b1) (b2), chosen by the case:
+//	(a)  [pair] NewPath(node 1) ; NewPath(node 2) ; accessors(word 1) ; accessors(word 2) - both built first
+//	(b)  NewPath(decoy) ; accessors(word 1) [; accessors(word 2) after the first decoy]  for every decoy of node 1
+//	(b1) NewPath(decoy) ; accessors(word 1) [; accessors(word 2)]   for one decoy
+//	(b2) NewPath(decoy) ; accessors(word 1)                          for two decoys
+//
+// the accessor order varies from step to step. The statement claims the accessor values for the WORD; a word is a
+// plain number, so which NewPath call came last must not matter.
 func check(c Case) *vk.Failure {
-	w1, f := checkWord(c.H, c.L, uint64(c.Prefix))
+	h, l1, p1 := c.H, c.L, uint64(c.Prefix)
+	l2, p2 := c.L2, uint64(c.Prefix2)
+	o := caseOrder(c)
+	if f := checkAccessors(h, l1, p1, o, noBuild); f != nil {
+		return f
+	}
+	w1, f := checkWord(h, l1, p1)
 	if f != nil {
 		return f
 	}
+	var w2 uint64
 	if c.Has2 {
-		w2, f := checkWord(c.H, c.L2, uint64(c.Prefix2))
-		if f != nil {
+		if w2, f = checkWord(h, l2, p2); f != nil {
 			return f
 		}
-		return checkOrder(c.H, w1, uint64(c.Prefix), c.L, w2, uint64(c.Prefix2), c.L2)
+		if f := checkAccessors(h, l1, p1, o+1, earlier(&node{h, l2, p2})); f != nil {
+			return f
+		}
+	}
+	variant := -1 // everything
+	if h > 8 {
+		variant = int(vk.Mix(uint64(o)+uint64(c.Prefix)>>3+uint64(c.L)*131) % 3)
+		if !c.Has2 && variant == 0 {
+			variant = 2
+		}
+	}
+	if c.Has2 && variant <= 0 {
+		if _, f := buildWord(h, l1, p1); f != nil {
+			return f
+		}
+		if _, f := buildWord(h, l2, p2); f != nil {
+			return f
+		}
+		if f := checkAccessors(h, l1, p1, o+2, context{what: "both words of the pair built first", last: &node{h, l2, p2}}); f != nil {
+			return f
+		}
+		if f := checkAccessors(h, l2, p2, o+3, lastOfTwo); f != nil {
+			return f
+		}
+	}
+	ds := decoys(h, l1, p1)
+	switch {
+	case variant == 0 || len(ds) == 0:
+		ds = nil
+	case variant == 1:
+		ds = ds[o%len(ds):][:1]
+	case variant == 2 && len(ds) > 2:
+		k := o % len(ds)
+		ds = []node{ds[k], ds[(k+1+o/2%(len(ds)-1))%len(ds)]}
+	}
+	for i := range ds {
+		d := ds[i]
+		if _, f := buildWord(d.h, d.l, d.p); f != nil {
+			return f
+		}
+		if f := checkAccessors(h, l1, p1, o+4+i, earlier(&ds[i])); f != nil {
+			return f
+		}
+		if c.Has2 && i == 0 && variant != 2 {
+			if f := checkAccessors(h, l2, p2, o+5, earlier(&ds[i])); f != nil {
+				return f
+			}
+		}
+	}
+	if c.Has2 {
+		return checkOrder(h, w1, p1, l1, w2, p2, l2)
 	}
 	return nil
 }
@@ -357,6 +531,11 @@ func TestGrid(t *testing.T) {
 			if f != nil {
 				fail(Case{H: h, L: l, Prefix: vk.U64(prefix)}, f)
 			}
+			if !first { // the word of the node walked before, now that another NewPath call was made
+				if lf := checkAccessors(h, prevL, prevP, int(evals), earlier(&node{h, l, prefix})); lf != nil {
+					fail(Case{H: h, L: prevL, Prefix: vk.U64(prevP), Has2: true, L2: l, Prefix2: vk.U64(prefix), Rel: "walk-successor"}, lf)
+				}
+			}
 			if evals&255 == 0 {
 				if kf := checker.RunKeepers(); kf != nil {
 					fail(Case{H: h, L: l, Prefix: vk.U64(prefix)}, kf)
@@ -370,14 +549,14 @@ func TestGrid(t *testing.T) {
 		})
 	}
 	for h := 0; h <= 6; h++ {
-		type node struct {
+		type pl struct {
 			p uint64
 			l int
 		}
-		var nodes []node
+		var nodes []pl
 		for l := 0; l <= h; l++ {
 			for p := uint64(0); p < 1<<uint(l); p++ {
-				nodes = append(nodes, node{p, l})
+				nodes = append(nodes, pl{p, l})
 			}
 		}
 		words := make([]uint64, len(nodes)) // the LIBRARY's words (each was checked against the encoding above)
